@@ -1438,6 +1438,29 @@ bool Parser::parseAlignmentSpecifier_AtFirst(SpecifierSyntax*& spec)
     auto alignSpec = makeNode<AlignmentSpecifierSyntax>();
     spec = alignSpec;
     alignSpec->alignasKwTkIdx_ = consume();
+
+    // The operand is a parenthesized constant-expression or type-name, not a
+    // unary-expression: what follows the parentheses is the rest of the
+    // declaration (6.7.5).
+    if (peek().kind() == SyntaxKind::OpenParenToken) {
+        Backtracker BT(this);
+        auto openParenTkIdx = consume();
+        ExpressionSyntax* expr = nullptr;
+        if (parseExpressionWithPrecedenceConditional(expr)
+                && peek().kind() == SyntaxKind::CloseParenToken) {
+            BT.discard();
+            auto parenExpr = makeNode<ParenthesizedExpressionSyntax>();
+            parenExpr->openParenTkIdx_ = openParenTkIdx;
+            parenExpr->expr_ = expr;
+            parenExpr->closeParenTkIdx_ = consume();
+            auto exprAsTyRef = makeNode<ExpressionAsTypeReferenceSyntax>();
+            exprAsTyRef->expr_ = parenExpr;
+            alignSpec->tyRef_ = exprAsTyRef;
+            maybeAmbiguateTypeReference(alignSpec->tyRef_);
+            return true;
+        }
+        BT.backtrack();
+    }
     return parseParenthesizedTypeNameOrExpression(alignSpec->tyRef_);
 }
 
